@@ -43,6 +43,8 @@ pub const ORIG_CLASSES: &[&str] = &[
     "é$",
     "q.$é$x",
     // `[]` inside / at the end of a class name (array suffixes are appended to, never cut from, a name)
+    "com.example.collision.Avoid",
+    "void",
     "com.example.Matrix[]",
     "com.example.Row[]View",
     "x[]",
